@@ -622,7 +622,7 @@ pub fn run(opts: &Opts) -> i32 {
     ev.fault("schedule:build-order+argument-order", ev.evaluations);
     let nviol = violations.len();
     let outcome = harness::conclude(PROP, violations, opts, &harness::verify_in_fresh_process);
-    ev.write(opts, nviol);
+    ev.write(opts, outcome.unlisted as usize, nviol);
     println!(
         "C14 {}: {} projects ({} multi-package) x {} schedules, {} simulated processes, {} violations ({} known), {:.1}s",
         opts.tier.name(),
